@@ -219,8 +219,8 @@ int main(void)
 			break;
 		}
 		case 'g':
-			_dispatch_unote_state_set(&T[id], DISPATCH_WLH_ANON, 0);
-			if (os_atomic_load2o(&T[id], dt_pending_config, relaxed)) _dispatch_timer_unote_configure(&T[id]);
+			// the library's own registration (event.c:839), for a source that is not of background QoS
+			_dispatch_timer_unote_register(&T[id], DISPATCH_WLH_ANON, 0);
 			break;
 		case 'f': _dispatch_timer_unote_configure(&T[id]); break;
 		case 'r': _dispatch_timer_unote_resume(&T[id]); break;
